@@ -576,12 +576,20 @@ type vSystem interface {
 
 // vBFS explores every history up to maxDepth, deduplicating by canonical state. Each
 // transition is executed on a fresh instance by replaying the shortest history.
-func vBFS(c *vCtx, sys vSystem, maxDepth int) {
-	frontier := [][]vOp{{}}
+func vBFS(c *vCtx, sys vSystem, maxDepth int) { vBFSFrom(c, sys, maxDepth, nil) }
+
+// vBFSFrom is vBFS started from the state reached by prefix (used to shard a space by
+// its first operations); the prefix itself is executed once with the oracle on.
+func vBFSFrom(c *vCtx, sys vSystem, maxDepth int, prefix []vOp) {
+	frontier := [][]vOp{append([]vOp(nil), prefix...)}
 	sys.Reset()
+	for i, o := range prefix {
+		sys.Apply(o, prefix[:i], true)
+		c.Transitions++
+	}
 	c.NewState(sys.Key())
-	completed := 0
-	for depth := 0; depth < maxDepth && len(frontier) > 0; depth++ {
+	completed := len(prefix)
+	for depth := len(prefix); depth < maxDepth && len(frontier) > 0; depth++ {
 		var next [][]vOp
 		for _, hist := range frontier {
 			if c.Expired() {
